@@ -62,6 +62,7 @@ Ltac dhd rest := let k := fresh "k" in let s := fresh "s" in let r := fresh "r" 
   destruct rest as [|[k s] r]; [|destruct k]; cbn in *; try reflexivity; try discriminate; try contradiction; try congruence.
 
 Ltac norm := repeat rewrite <- app_assoc; cbn [app].
+Ltac norm_all := repeat first [rewrite <- app_assoc in * | progress cbn [app] in * ].
 Ltac lens := repeat (first [rewrite app_length in * | progress cbn [length] in * ]).
 
 (* ---- ColumnReference ---- *)
@@ -328,14 +329,6 @@ Proof.
   cbn [r_items]. unfold r_item. rewrite E. cbn [app]. eauto.
 Qed.
 
-(* the select list of a well-formed SELECT: the asterisk alone, or items none of which is one *)
-Definition wf_items (o : ropts) (ds : list derivedcol) : bool :=
-  match ds with
-  | [] => false
-  | [d] => match dc_prim d with SPStar => String.eqb (dc_as d) "" | p => wf_prim o p end
-  | _ => forallb (fun d => wf_prim o (dc_prim d)) ds
-  end.
-
 Lemma select_list_rt o ds fuel rest : wf_items o ds = true -> after_items rest ->
   length (r_items o 0 ds ++ rest) < fuel ->
   select_list fuel (r_items o 0 ds ++ rest) = POk (ds, rest).
@@ -370,6 +363,18 @@ Proof.
   induction t as [n a|l IHl jt r IHr c]; cbn [r_tref join_count]; lens; try lia.
 Qed.
 
+Lemma join_step o l jt rn ra c more f : wf_or o c = true -> ext_or (hdk more) = false ->
+  length (r_expr o c ++ more) < S f ->
+  (let* (rhs, r2) := table_name (r_tref o (TRName rn ra) ++ K KOn :: r_expr o c ++ more) in
+   match r2 with
+   | (KOn, _) :: r3 => let* (cond, r4) := or_cond (S f) r3 in join_loop f (TRJoin l jt rhs cond) r4
+   | _ => PErr EUnexpected
+   end) = join_loop f (TRJoin l jt (TRName rn ra) c) more.
+Proof.
+  intros Wc Fe Lf. rewrite table_name_rt by (intros _; cbn; discriminate). cbn [bind K].
+  rewrite or_rt; auto.
+Qed.
+
 (* parsing the leftmost table name and then looping over the joins of `t` arrives at the loop
    state "t parsed, `more` ahead" with one unit of fuel used per join *)
 Lemma join_cont o : forall t, wf_tref o t = true -> forall fuel more,
@@ -398,26 +403,12 @@ Proof.
     destruct (fuel - join_count l) as [|f] eqn:Ef; try lia.
     replace (fuel - S (join_count l)) with f by lia.
     rewrite join_loop_S.
-    assert (Step : forall jt',
-      (match K KJoin :: r_ident rn :: match ra with Some x => [r_ident x] | None => [] end ++ K KOn :: r_expr o c ++ more with
-       | (KJoin, _) :: r1 =>
-           let* (rhs, r2) := table_name r1 in
-           match r2 with
-           | (KOn, _) :: r3 =>
-               let* (cond, r4) := or_cond (S f) r3 in join_loop f (TRJoin l jt' rhs cond) r4
-           | _ => PErr EUnexpected
-           end
-       | _ => PErr EUnexpected
-       end) = join_loop f (TRJoin l jt' (TRName rn ra) c) more).
-    { intros jt'. cbn [K].
-      change (r_ident rn :: match ra with Some x => [r_ident x] | None => [] end ++ (KOn, EmptyString) :: r_expr o c ++ more)
-        with (r_tref o (TRName rn ra) ++ (KOn, EmptyString) :: r_expr o c ++ more).
-      rewrite table_name_rt by (intros _; cbn; discriminate). cbn [bind].
-      rewrite or_rt; auto. lia. }
+    assert (Lf : length (r_expr o c ++ more) < S f) by (rewrite app_length; lia).
     unfold more'. destruct jt; try discriminate; cbn [r_jt app K].
-    + apply Step.
-    + apply Step.
-    + destruct (nth (join_count l) (o_inner o) false); cbn [app K]; apply Step.
+    + exact (join_step o l JLeft rn ra c more f Wc Fe Lf).
+    + exact (join_step o l JRight rn ra c more f Wc Fe Lf).
+    + destruct (nth (join_count l) (o_inner o) false); cbn [app K];
+        exact (join_step o l JInner rn ra c more f Wc Fe Lf).
 Qed.
 
 Lemma from_rt o t fuel rest : wf_tref o t = true ->
@@ -429,7 +420,260 @@ Proof.
   intros W F1 F2 F3 F4 F5 F6 L. unfold from_clause. cbn [K]. cbn [length] in L.
   pose proof (tref_len o t) as Lt. rewrite app_length in L.
   assert (E := join_cont o t W fuel rest F1 F2 ltac:(rewrite app_length; lia)).
-  destruct (table_name (r_tref o t ++ rest)) as [[tn r1]| | |] eqn:Et; cbn [bind] in *;
-    try (destruct (fuel - join_count t) as [|f] eqn:Ef; [lia|]; rewrite join_loop_S in E; revert E; dhd rest).
-  rewrite E. destruct (fuel - join_count t) as [|f] eqn:Ef; try lia. rewrite join_loop_S. dhd rest.
+  assert (Hend : forall f, join_loop (S f) t rest = POk (t, rest)).
+  { intros f. rewrite join_loop_S. dhd rest. }
+  destruct (fuel - join_count t) as [|f] eqn:Ef; try lia. rewrite Hend in E.
+  destruct (table_name (r_tref o t ++ rest)) as [[tn r1]| | |] eqn:Et; cbn [bind] in *; try discriminate.
+  rewrite E. reflexivity.
+Qed.
+
+(* ---- WhereClause ---- *)
+Lemma where_rt o w fuel rest : wf_where o w = true -> ext_or (hdk rest) = false -> hdk rest <> KWhere ->
+  length (r_where o w ++ rest) < fuel ->
+  where_clause fuel (r_where o w ++ rest) = POk (w, rest).
+Proof.
+  intros W F Fw L. destruct w as [e|]; cbn [r_where wf_where app] in *.
+  - unfold where_clause. cbn [K]. cbn [length] in L. rewrite or_rt; auto. lia.
+  - unfold where_clause. dhd rest.
+Qed.
+
+(* ---- GroupByClause ---- *)
+Lemma group_loop_rt o : forall cols i acc fuel rest,
+  hdk rest <> KIdent -> hdk rest <> KComma -> hdk rest <> KDot ->
+  length (r_group o i cols ++ rest) < fuel ->
+  group_loop fuel acc (r_group o i cols ++ rest) = POk (acc ++ cols, rest).
+Proof.
+  induction cols as [|c cols IH]; intros i acc fuel rest F1 F2 F3 L.
+  - cbn [r_group app] in *. destruct fuel as [|f]; try lia. rewrite group_loop_S.
+    unfold column_reference. rewrite app_nil_r. dhd rest.
+  - cbn [r_group] in *. repeat rewrite <- app_assoc in *.
+    pose proof (colref_len c) as Lc.
+    set (tail := match cols with [] => [] | _ :: _ => (if nth i (o_gsep o) false then [K KComma] else []) ++ r_group o (S i) cols end ++ rest) in *.
+    destruct fuel as [|f]; try lia. rewrite group_loop_S.
+    assert (Ht : (tail = r_group o (S i) cols ++ rest /\ hdk tail <> KComma /\ hdk tail <> KDot) \/
+                 tail = K KComma :: r_group o (S i) cols ++ rest).
+    { unfold tail. destruct cols as [|c2 cols'].
+      - left. cbn. auto.
+      - destruct (nth i (o_gsep o) false); [right; reflexivity|left].
+        split; [reflexivity|]. cbn [app r_group]. destruct (colref_head c2) as (x & tl & ->). cbn. split; discriminate. }
+    rewrite app_length in L.
+    destruct Ht as [(Et & Hc & Hd)| Et].
+    + rewrite (colref_rt c tail Hd). cbn [bind].
+      assert (G : group_loop f (acc ++ [c]) tail = POk (acc ++ c :: cols, rest)).
+      { rewrite Et. rewrite IH; auto; [rewrite <- app_assoc; reflexivity| rewrite <- Et; lia]. }
+      destruct tail as [|[k s] tl]; [exact G|]. destruct k; try exact G. cbn in Hc; congruence.
+    + rewrite (colref_rt c tail) by (rewrite Et; cbn; discriminate). cbn [bind]. rewrite Et. cbn [K].
+      rewrite IH; auto; [rewrite <- app_assoc; reflexivity|]. rewrite Et in L. cbn [length] in L. lia.
+Qed.
+
+Definition r_group_clause (o : ropts) (g : list colref) : list ptok :=
+  match g with [] => [] | _ => K KGroup :: K KBy :: r_group o 0 g end.
+
+Lemma group_rt o g fuel rest :
+  hdk rest <> KIdent -> hdk rest <> KComma -> hdk rest <> KDot -> hdk rest <> KGroup ->
+  length (r_group_clause o g ++ rest) < fuel ->
+  group_by_clause fuel (r_group_clause o g ++ rest) = POk (g, rest).
+Proof.
+  intros F1 F2 F3 F4 L. destruct g as [|c g].
+  - cbn [r_group_clause app]. unfold group_by_clause. dhd rest.
+  - unfold r_group_clause in *. cbn [app K] in *. unfold group_by_clause.
+    cbn [length] in L. rewrite (group_loop_rt o (c :: g) 0 [] fuel rest); auto. lia.
+Qed.
+
+(* ---- SortSpecificationList ---- *)
+Lemma sort_loop_rt o : forall ss, ss <> [] -> forall i acc fuel rest,
+  hdk rest <> KComma -> hdk rest <> KDot -> hdk rest <> KAsc -> hdk rest <> KDesc ->
+  length (r_sorts o i ss ++ rest) < fuel ->
+  sort_loop fuel acc (r_sorts o i ss ++ rest) = POk (acc ++ ss, rest).
+Proof.
+  induction ss as [|s ss IH]; intros Hne i acc fuel rest F1 F2 F3 F4 L; try congruence.
+  cbn [r_sorts] in *. unfold r_sortspec in *. repeat rewrite <- app_assoc in *.
+  destruct s as [key dir]. cbn [ss_key ss_dir] in *.
+  pose proof (colref_len key) as Lc.
+  set (tail := match ss with [] => [] | _ :: _ => K KComma :: r_sorts o (S i) ss end ++ rest) in *.
+  assert (Hk : tail = rest /\ ss = [] \/ exists s' ss', ss = s' :: ss' /\ tail = K KComma :: r_sorts o (S i) ss ++ rest).
+  { destruct ss; [left; auto | right; eauto]. }
+  assert (Ft : hdk tail <> KDot /\ hdk tail <> KAsc /\ hdk tail <> KDesc).
+  { destruct Hk as [[-> _]|(s' & ss' & _ & ->)]; cbn; auto. repeat split; discriminate. }
+  destruct Ft as (Ft1 & Ft2 & Ft3).
+  destruct fuel as [|f]; try lia. rewrite sort_loop_S.
+  assert (Fin : forall d, length tail < f ->
+            match tail with
+            | (KComma, _) :: r2 => sort_loop f (acc ++ [mkSort key d]) r2
+            | _ => POk (acc ++ [mkSort key d], tail)
+            end = POk (acc ++ mkSort key d :: ss, rest)).
+  { intros d Lt. destruct Hk as [[-> ->]|(s' & ss' & Eds & ->)].
+    - dhd rest.
+    - cbn [K]. rewrite IH; auto; try (rewrite Eds; discriminate).
+      + rewrite <- app_assoc. reflexivity.
+      + cbn [length] in Lt. lia. }
+  rewrite !app_length in L.
+  destruct dir; [destruct (nth i (o_asc o) false)|]; cbn [app K length] in *.
+  - rewrite (colref_rt key (K KAsc :: tail)) by (cbn; discriminate). cbn [bind K]. apply Fin. lia.
+  - rewrite (colref_rt key tail Ft1). cbn [bind].
+    destruct tail as [|[k s] tl]; [apply Fin; cbn; lia|].
+    destruct k; try (apply Fin; cbn [length] in *; lia); cbn in *; congruence.
+  - rewrite (colref_rt key (K KDesc :: tail)) by (cbn; discriminate). cbn [bind K]. apply Fin. lia.
+Qed.
+
+Definition r_sort_clause (o : ropts) (ss : list sortspec) : list ptok :=
+  match ss with [] => [] | _ => K KOrder :: K KBy :: r_sorts o 0 ss end.
+
+Lemma sort_rt o ss fuel rest :
+  hdk rest <> KComma -> hdk rest <> KDot -> hdk rest <> KAsc -> hdk rest <> KDesc -> hdk rest <> KOrder ->
+  length (r_sort_clause o ss ++ rest) < fuel ->
+  sort_spec_list fuel (r_sort_clause o ss ++ rest) = POk (ss, rest).
+Proof.
+  intros F1 F2 F3 F4 F5 L. destruct ss as [|s ss].
+  - cbn [r_sort_clause app]. unfold sort_spec_list. dhd rest.
+  - unfold r_sort_clause in *. cbn [app K] in *. unfold sort_spec_list. cbn [length] in L.
+    rewrite (sort_loop_rt o (s :: ss) ltac:(discriminate) 0 [] fuel rest); auto. lia.
+Qed.
+
+(* ---- LimitOffsetClause ---- *)
+Lemma require_int_rt o z r : num_ok o z = true -> require_int ((KInt, o_num o z) :: r) = POk (z, r).
+Proof. intros H. unfold require_int, val_of. cbn [fst snd]. rewrite (num_ok_atoi o z H). reflexivity. Qed.
+
+Lemma limit_loop_end f lc rest : hdk rest <> KLimit -> hdk rest <> KOffset ->
+  limit_loop (S f) lc rest = POk (lc, rest).
+Proof. intros H1 H2. rewrite limit_loop_S. dhd rest. Qed.
+
+Lemma limit_rt o s fuel rest :
+  wf_limit o (sel_limit_active s) (sel_limit s) = true ->
+  wf_limit o (sel_offset_active s) (sel_offset s) = true ->
+  hdk rest <> KLimit -> hdk rest <> KOffset ->
+  length (r_limit o s ++ rest) < fuel ->
+  limit_offset fuel (r_limit o s ++ rest)
+  = POk (mkLO (sel_limit_active s) (sel_offset_active s) (sel_limit s) (sel_offset s), rest).
+Proof.
+  unfold wf_limit, r_limit, limit_offset.
+  destruct (sel_limit_active s), (sel_offset_active s); intros Wl Wo F1 F2 L;
+    repeat match goal with H : (_ && _)%bool = true |- _ => apply andb_prop in H as [? ?] end;
+    repeat match goal with H : Z.eqb _ 0 = true |- _ => apply Z.eqb_eq in H; rewrite H in * end;
+    repeat match goal with H : Z.leb 0 ?z = true |- _ => apply Z.leb_le in H end;
+    destruct (o_offset_first o); cbn [app K length] in *;
+    destruct fuel as [|[|[|f]]]; try lia;
+    repeat (rewrite limit_loop_S; cbn [negb lo_la lo_oa lo_l lo_o bind K];
+            try (rewrite require_int_rt by assumption; cbn [bind lo_la lo_oa lo_l lo_o]));
+    (destruct rest as [|[k s0] r]; [|destruct k]; cbn [hdk] in *; try congruence);
+    cbn [bind lo_la lo_oa lo_l lo_o];
+    repeat match goal with |- context [Z.ltb ?z 0] =>
+      let E := fresh in destruct (Z.ltb_spec z 0) as [E|E]; [lia|] end;
+    try reflexivity.
+Qed.
+
+(* ---- clause order: what may start the rest of a SELECT after each clause ---- *)
+Definition lvl (k : tk) : nat :=
+  match k with
+  | KWhere => 1 | KGroup => 2 | KOrder => 3 | KLimit | KOffset => 4 | KOther => 5
+  | _ => 0
+  end.
+
+Lemma lvl_ne k n k' : n <= lvl k -> lvl k' < n -> k <> k'.
+Proof. intros H1 H2 ->. lia. Qed.
+
+Lemma lvl_ext k : 1 <= lvl k -> ext_or k = false.
+Proof. destruct k; cbn; intros; try lia; reflexivity. Qed.
+
+Definition endtok (rest : list ptok) : Prop := rest = [] \/ rest = [K KOther].
+
+Lemma lvl_end rest : endtok rest -> 5 <= lvl (hdk rest).
+Proof. intros [->| ->]; cbn; lia. Qed.
+
+Lemma lvl_limit o s X : 5 <= lvl (hdk X) -> 4 <= lvl (hdk (r_limit o s ++ X)).
+Proof.
+  intros H. unfold r_limit. destruct (sel_limit_active s), (sel_offset_active s), (o_offset_first o); cbn; lia.
+Qed.
+
+Lemma lvl_sort o ss X : 4 <= lvl (hdk X) -> 3 <= lvl (hdk (r_sort_clause o ss ++ X)).
+Proof. intros H. destruct ss; cbn; lia. Qed.
+
+Lemma lvl_group o g X : 3 <= lvl (hdk X) -> 2 <= lvl (hdk (r_group_clause o g ++ X)).
+Proof. intros H. destruct g; cbn; lia. Qed.
+
+Lemma lvl_where o w X : 2 <= lvl (hdk X) -> 1 <= lvl (hdk (r_where o w ++ X)).
+Proof. intros H. destruct w; cbn; lia. Qed.
+
+Ltac side H := first
+  [ apply (lvl_ne _ _ _ H); cbn; lia
+  | apply lvl_ext; lia ].
+
+(* ---- Select ---- *)
+Lemma r_select_eq o s :
+  r_select o s =
+  K KSelect :: r_items o 0 (sel_list s) ++
+  match sel_from s with
+  | tr :: _ => K KFrom :: r_tref o tr ++ r_where o (sel_where s) ++ r_group_clause o (sel_group s)
+  | [] => []
+  end ++ r_sort_clause o (sel_sort s) ++ r_limit o s.
+Proof.
+  unfold r_select, r_group_clause, r_sort_clause.
+  destruct (sel_from s), (sel_group s), (sel_sort s); reflexivity.
+Qed.
+
+Lemma wf_select_items o s : wf_select o s = true -> wf_items o (sel_list s) = true.
+Proof.
+  unfold wf_select. intros W. repeat (apply andb_prop in W as [W ?]). exact W.
+Qed.
+
+Lemma select_rt o s fuel rest : wf_select o s = true -> endtok rest ->
+  length (r_select o s ++ rest) <= fuel ->
+  select_ fuel (r_items o 0 (sel_list s) ++
+    match sel_from s with
+    | tr :: _ => K KFrom :: r_tref o tr ++ r_where o (sel_where s) ++ r_group_clause o (sel_group s)
+    | [] => []
+    end ++ r_sort_clause o (sel_sort s) ++ r_limit o s ++ rest) = POk (SSelect s).
+Proof.
+  intros W E L. pose proof (wf_select_items o s W) as Wi.
+  rewrite r_select_eq in L. cbn [app length] in L.
+  pose proof (lvl_end rest E) as L5.
+  unfold wf_select in W. repeat (apply andb_prop in W as [W ?]).
+  destruct s as [sl fr w g ss la oa lim off]. cbn [sel_list sel_from sel_where sel_group sel_sort
+    sel_limit_active sel_offset_active sel_limit sel_offset] in *.
+  unfold select_.
+  destruct fr as [|tr [|tr2 fr]]; try discriminate.
+  - (* no FROM *)
+    destruct w; try discriminate. destruct g; try discriminate. destruct ss; try discriminate.
+    match goal with H : (negb la && negb oa)%bool = true |- _ => apply andb_prop in H as [Hla Hoa] end.
+    destruct la, oa; try discriminate.
+    unfold wf_limit in *.
+    repeat match goal with H : Z.eqb _ 0 = true |- _ => apply Z.eqb_eq in H; subst end.
+    unfold r_limit in *. cbn [sel_limit_active sel_offset_active app r_sort_clause] in *.
+    destruct (o_offset_first o); cbn [app] in *;
+    (rewrite select_list_rt; auto;
+      [ | repeat split; side L5 | lens; lia ]);
+    cbn [bind];
+    (destruct E as [->| ->]; unfold table_expression, from_clause; cbn [bind K has_next negb andb];
+     match goal with H : match validate_group_by _ _ with _ => _ end = true |- _ =>
+       destruct (validate_group_by sl []); try discriminate end;
+     destruct fuel as [|[|f]]; cbn [length] in *; try lia; reflexivity).
+  - (* FROM *)
+    match goal with H : (wf_tref o tr && wf_where o w)%bool = true |- _ => apply andb_prop in H as [Wt Ww] end.
+    norm_all.
+    set (T4 := r_limit o {| sel_list := sl; sel_from := [tr]; sel_where := w; sel_group := g; sel_sort := ss;
+                            sel_limit_active := la; sel_offset_active := oa; sel_limit := lim; sel_offset := off |} ++ rest) in *.
+    pose proof (lvl_limit o _ rest L5 : 4 <= lvl (hdk T4)) as L4.
+    set (T3 := r_sort_clause o ss ++ T4) in *.
+    pose proof (lvl_sort o ss T4 L4 : 3 <= lvl (hdk T3)) as L3.
+    set (T2 := r_group_clause o g ++ T3) in *.
+    pose proof (lvl_group o g T3 L3 : 2 <= lvl (hdk T2)) as L2.
+    set (T1 := r_where o w ++ T2) in *.
+    pose proof (lvl_where o w T2 L2 : 1 <= lvl (hdk T1)) as L1.
+    rewrite !app_length in L. cbn [length] in L. rewrite !app_length in L.
+    rewrite select_list_rt; auto;
+      [ | repeat split; cbn; discriminate | lens; lia ].
+    cbn [bind]. unfold table_expression.
+    rewrite from_rt; auto; try side L1; [|lens; lia].
+    cbn [bind]. unfold T1 in *.
+    rewrite where_rt; auto; try side L2; [|lens; lia].
+    cbn [bind]. unfold T2 in *.
+    rewrite group_rt; auto; try side L3; [|lens; lia].
+    cbn [bind negb andb].
+    match goal with H : match validate_group_by _ _ with _ => _ end = true |- _ =>
+       destruct (validate_group_by sl g); try discriminate end.
+    unfold T3 in *.
+    rewrite sort_rt; auto; try side L4; [|lens; lia].
+    cbn [bind]. unfold T4 in *.
+    rewrite limit_rt; auto; try side L5; try (lens; lia).
+    reflexivity.
 Qed.
